@@ -66,6 +66,9 @@ SNIPPETS = [
     'from . import sibling\nfrom .. import parent\nfrom .pkg.mod import name as alias\nimport a.b.c as abc\n',
     'print(1, 2, sep="")\nlen([1])\nisinstance(x, int)\n',
     'match command:\n    case [a, b]:\n        pass\n    case {"k": v}:\n        v\n    case _:\n        pass\n',
+    'z = (1, 2)\ng = ((a for a in b) for b in z)\nm = [[c for c in d] for d in z]\ns = {e: {f for f in e} for e in z}\n',
+    'def deco(fn):\n    def wrapper(*a, **k):\n        return fn(*a, **k)\n    return wrapper\n@deco\ndef decorated(p, q=lambda r: r):\n    class Local:\n        lv = p\n    return Local\ndecorated(1).lv\n',
+    'import nspkg_zq\nfrom nspkg_zq import sub\nclass A: pass\ndef flag(): return 1\nx = A if flag() else nspkg_zq\nx\n',
     'class C:\n    """doc"""\n    attr = 1\n    def __init__(self):\n        """init doc"""\n        self.attr2 = C.attr\nc = C()\nc.attr2\nC(',
 ]
 
@@ -304,7 +307,7 @@ def _api_task(task):
                 rec['outcome'] = 'normal'
                 items = res if isinstance(res, list) else [res]
                 rec['n'] = len(items)
-                pick = items[:3] + (items[-1:] if len(items) > 3 else [])
+                pick = items if len(items) <= 5 else items[:2] + rng.sample(items[2:], 3)
                 for it in pick:
                     _walk_result(it, 1, acc, m)
             except ValueError as e:
@@ -322,6 +325,11 @@ def _api_task(task):
 
 
 def stream_api(ctx):
+    # the (empty, temporary) current directory is the project of path-less Scripts: give it an
+    # implicit namespace package so that names without position/module appear among the results
+    os.makedirs(os.path.join(os.getcwd(), 'nspkg_zq'), exist_ok=True)
+    with open(os.path.join(os.getcwd(), 'nspkg_zq', 'sub.py'), 'w') as f:
+        f.write('value = 1\n')
     texts = gen_texts(ctx, ctx.n(100, 3000))
     tasks = []
     for t in texts:
